@@ -69,7 +69,7 @@ func deepExpr(r *gen.Rng, k int, budget int) *pexpr {
 		// a run of plain segments, then whatever follows
 		to := k + 1 + r.Intn(c07DeepLevels-k)
 		e := xpathOf(deepPrefix(k, to)...)
-		if r.Bool() {
+		if r.Bool() || to-1 <= k {
 			return xseq(e, deepExpr(r, to, budget-1)) // left-nested: prefix first
 		}
 		return xseq(xpathOf(deepPrefix(k, to-1)...), xseq(xseg(fmt.Sprintf("c%d", to)), deepExpr(r, to, budget-1)))
